@@ -4,6 +4,7 @@ package world
 import (
 	"context"
 	"fmt"
+	"net/http"
 	"os"
 	"reflect"
 	"sort"
@@ -19,6 +20,7 @@ import (
 	"github.com/nuts-foundation/nuts-node/core"
 	"github.com/nuts-foundation/nuts-node/crypto"
 	"github.com/nuts-foundation/nuts-node/events"
+	httpclient "github.com/nuts-foundation/nuts-node/http/client"
 	"github.com/nuts-foundation/nuts-node/network"
 	"github.com/nuts-foundation/nuts-node/network/dag"
 	"github.com/nuts-foundation/nuts-node/network/transport"
@@ -175,6 +177,15 @@ type NodeOpts struct {
 	NetConfig  func(c *network.Config)
 	// Web enables the HTTP-facing modules (vcr, auth, discovery, policy, didman) and routes.
 	Web bool
+	// SimSession puts the in-memory session database on the simulator's cache store (every
+	// session-store operation becomes a scheduling point).
+	SimSession bool
+	// DiscoveryServer makes this node the server of the embedded discovery service definition;
+	// DiscoveryHost is the host name of the server node (for clients and the server itself).
+	DiscoveryServer bool
+	DiscoveryHost   string
+	// ConfigYAML is written to the node's config file (for keys the environment cannot express).
+	ConfigYAML string
 	// Extra lets a world register more engines before Load; it receives the partly built node.
 	Extra func(n *Node)
 	// BeforeStart runs after Configure/Migrate and before Start (e.g. to subscribe receivers).
@@ -199,6 +210,7 @@ type Node struct {
 	Events  events.Event
 	PKI     *pki.PKI
 	Parts   map[string]interface{} // further engines by name (vcr, auth, ...)
+	Session *seams.SessionStore
 	stopped bool
 }
 
@@ -208,6 +220,7 @@ type World struct {
 	RC    *simkit.RunCtx
 	F     *seams.FaultPoints
 	P2P   *seams.P2P
+	HTTP  *seams.HTTP
 	Nodes map[string]*Node
 	Gens  map[string]int
 	// KVObserve sees every committed KV write transaction.
@@ -225,6 +238,9 @@ func New(s *simkit.Sim, rc *simkit.RunCtx) *World {
 	f := &seams.FaultPoints{S: s, Rates: map[string]int{}}
 	w := &World{S: s, RC: rc, F: f, Nodes: map[string]*Node{}, Gens: map[string]int{}}
 	w.P2P = seams.NewP2P(s, f)
+	w.HTTP = seams.NewHTTP(s, f)
+	seams.SetCurrentHTTP(w.HTTP)
+	installDispatcher()
 	w.P2P.NewEnvelope = func() interface{} { return &v2.Envelope{} }
 	// checkPage calls db.Write while holding the repair mutex that gossip handling also takes
 	s.PassThrough = append(s.PassThrough, "xorTreeRepair")
@@ -293,12 +309,18 @@ func (w *World) startNodeOnce(o NodeOpts) (*Node, error) {
 		w.cmu.Unlock()
 	}
 	os.MkdirAll(n.Dir, 0o755)
+	prevTag := w.S.RootTag
+	w.S.RootTag = "boot:" + o.Name
+	defer func() { w.S.RootTag = prevTag }()
 	env := map[string]string{
 		"NUTS_DATADIR":    n.Dir,
 		"NUTS_STRICTMODE": "false",
 		"NUTS_URL":        "https://" + o.Name + ".sim",
 		"NUTS_DIDMETHODS": o.DIDMethods,
 		"NUTS_VERBOSITY":  "warn",
+	}
+	if o.Web {
+		w.webConfig(n, env)
 	}
 	for k, v := range o.Env {
 		env[k] = v
@@ -310,6 +332,10 @@ func (w *World) startNodeOnce(o NodeOpts) (*Node, error) {
 	n.PKI = pki.New()
 	realStorage := storage.New()
 	n.Storage = &SimStorage{Real: realStorage, node: n, kvs: map[string]*seams.KV{}}
+	if o.SimSession {
+		n.Session = seams.NewSessionStore(w.S, n.Inc)
+		n.Storage.Session = storage.NewSimSessionDatabase(n.Session)
+	}
 	n.Crypto = crypto.NewCryptoInstance(n.Storage)
 	n.DIDs = didstore.New(n.Storage.GetProvider(vdr.ModuleName))
 	n.Events = StubEvents{}
@@ -366,6 +392,13 @@ func (w *World) startNodeOnce(o NodeOpts) (*Node, error) {
 		for _, r := range system.Routers {
 			r.Routes(n.Echo)
 		}
+		inc := n.Inc
+		w.HTTP.Handle(o.Name+".sim", func(req *http.Request) *http.Response {
+			if inc.Dead() {
+				return &http.Response{StatusCode: 502, Header: http.Header{}, Body: http.NoBody}
+			}
+			return n.Serve(req)
+		})
 	}
 	if o.BeforeStart != nil {
 		o.BeforeStart(n)
@@ -567,4 +600,16 @@ func mutexField(obj interface{}, name string) *sync.Mutex {
 		return nil
 	}
 	return (*sync.Mutex)(f.Addr().UnsafePointer())
+}
+
+var dispatcherOnce sync.Once
+
+// installDispatcher registers the process-wide round tripper that sends every outbound request
+// of nuts-node's HTTP clients to the current run's simulated HTTP transport.
+func installDispatcher() {
+	dispatcherOnce.Do(func() {
+		httpclient.SafeHttpTransport.RegisterProtocol("https", seams.Dispatcher{})
+		httpclient.SafeHttpTransport.RegisterProtocol("http", seams.Dispatcher{})
+		httpclient.DefaultCachingTransport = httpclient.SafeHttpTransport
+	})
 }
